@@ -58,10 +58,10 @@ def combconc(n, items, amb):
             'INVARIANTS ExactlyOneComplete AtMostOneComplete CompleteIsLast NothingLost OneWinner WinnerComplete\nCHECK_DEADLOCK FALSE\n' % (n, items, 'TRUE' if amb else 'FALSE'))
 
 
-def observeon(n, ending, unsub):
-    return ('ObserveOn', 'observeon_%d_%s_%s' % (n, ending, 'u' if unsub else 'n'),
-            'SPECIFICATION Spec\nCONSTANTS NItems = %d\n Ending = "%s"\n WithUnsub = %s\n ErrorDirect = FALSE\n'
-            'INVARIANTS OrderOK OnWorker TerminalLast NothingLost NothingAfterUnsub\nPROPERTY WorkerExits\nCHECK_DEADLOCK FALSE\n' % (n, ending, 'TRUE' if unsub else 'FALSE'))
+def observeon(n, ending, unsub, fb=False):
+    return ('ObserveOn', 'observeon_%d_%s_%s%s' % (n, ending, 'u' if unsub else 'n', '_fb' if fb else ''),
+            'SPECIFICATION Spec\nCONSTANTS NItems = %d\n Ending = "%s"\n WithUnsub = %s\n ErrorDirect = FALSE\n Feedback = %s\n InlineFromWorker = FALSE\n'
+            'INVARIANTS OrderOK OnWorker TerminalLast NothingLost NothingAfterUnsub NeverNested FedBackAtMostOnce\nPROPERTY WorkerExits\nCHECK_DEADLOCK FALSE\n' % (n, ending, 'TRUE' if unsub else 'FALSE', 'TRUE' if fb else 'FALSE'))
 
 
 def subscribeon(n, completes, unsub):
@@ -119,8 +119,8 @@ CONC = {
             [sinkconc(3, 1, ['AtMostOneTerminal']), combconc(3, 2, False), combconc(4, 1, False), combconc(3, 3, True), zipconc(2, 3), zipconc(3, 2)]),
     'C07': (['C07'], [schedqueue(2, 2, '{11}', 'deadlock_2x2')], [schedqueue(2, 3, '{11}', 'deadlock_2x3'), schedqueue(3, 1, '{11}', 'deadlock_3x1')]),
     'C08': (['C08'], [schedqueue(2, 2, '{11}', '2x2_abort_inside')], [schedqueue(2, 2, '{11}', '2x2_abort_inside'), schedqueue(2, 3, '{}', '2x3'), schedqueue(3, 1, '{11}', '3x1')]),
-    'C09': (['C09'], [schedqueue(1, 3, '{13}', 'handoff_1x3_abort_in_last'), observeon(3, 'c', False), observeon(2, 'e', True), subscribeon(3, True, False), subscribeon(2, True, True)],
-            [schedqueue(1, 3, '{13}', 'handoff_1x3_abort_in_last'), schedqueue(2, 2, '{}', 'handoff_2x2'), observeon(4, 'c', True), observeon(4, 'e', True), observeon(3, 'none', True), subscribeon(4, True, True), subscribeon(3, False, True)]),
+    'C09': (['C09'], [schedqueue(1, 3, '{13}', 'handoff_1x3_abort_in_last'), observeon(3, 'c', False), observeon(2, 'e', True), observeon(2, 'c', True, fb=True), subscribeon(3, True, False), subscribeon(2, True, True)],
+            [schedqueue(1, 3, '{13}', 'handoff_1x3_abort_in_last'), schedqueue(2, 2, '{}', 'handoff_2x2'), observeon(4, 'c', True), observeon(4, 'e', True), observeon(3, 'none', True), observeon(3, 'c', True, fb=True), observeon(3, 'none', True, fb=True), subscribeon(4, True, True), subscribeon(3, False, True)]),
     'C15': (['C15'], [schedqueue(1, 2, '{12}', 'lifecycle'), timedops(3), observeon(2, 'none', True), subscribeon(2, False, True), timedsources('interval')], [schedqueue(2, 2, '{11}', 'lifecycle2'), timedops(4), observeon(3, 'e', True), observeon(3, 'none', True)]),
     'C16': (['C16'], [timedops(3), debounce(3), sampleconc(3, 3), timedsources('interval'), timedsources('timer'), timedsources('delay', 2)],
             [timedops(4), debounce(4), sampleconc(5, 5), timedsources('interval'), timedsources('timer'), timedsources('delay', 4)]),
